@@ -207,7 +207,7 @@ def _clean_run(item):
 def _scenario(sc, tabs):
     """One injected crash / fault: run, observe, classify, rerun, observe."""
     cmd, b, mode, k, torn, mig, desc = sc
-    d = tempfile.mkdtemp(prefix='c15s_')
+    d = tempfile.mkdtemp(prefix='c15s [x] *(1)_' if k % 3 == 1 else 'c15s_')
     try:
         t0 = tree(**b)
         cli.materialise(d, t0)
@@ -297,7 +297,7 @@ def run(ck):
             effects = [e for e in effects if e['k'] <= last]
         for e in effects:
             scenarios.append((cmd, b, 'fault', e['k'], None, mig, e))
-            for tn in (torns if e['kind'] == 'write' else [None]):
+            for tn in (torns if e['kind'] in ('write', 'copy') else [None]):
                 scenarios.append((cmd, b, 'crash', e['k'], tn, mig, e))
     results = par.pmap(_scenario, scenarios, extra=(tabs,))
     recs = []
